@@ -24,6 +24,7 @@ type FuncResult struct {
 	Notes       []string
 	Err         string
 	HasContract bool
+	Refine      bool
 	GenTimeS    float64
 	ScriptLines int
 }
@@ -35,11 +36,21 @@ func genFunc(p *Program, w *World, fn *ssa.Function, con *Contract, excepts map[
 
 // genFuncK: boundK > 0 generates the bounded instance used only to search for replayable inputs.
 func genFuncK(p *Program, w *World, fn *ssa.Function, con *Contract, excepts map[string]string, boundK int) (res *FuncResult) {
+	return genFuncR(p, w, fn, con, excepts, boundK, nil)
+}
+
+// genRefine: the method fn of an implementing type is verified against the interface method's
+// contract, the interface's ghost variable being read off the object's concrete state.
+func genRefine(p *Program, w *World, ref *Refinement) *FuncResult {
+	return genFuncR(p, w, ref.Fn, ref.Con, nil, 0, ref)
+}
+
+func genFuncR(p *Program, w *World, fn *ssa.Function, con *Contract, excepts map[string]string, boundK int, ref *Refinement) (res *FuncResult) {
 	start := time.Now()
 	e := newExec(p, w)
 	e.boundK = boundK
 	e.FnName = displayName(fn)
-	res = &FuncResult{Fn: e.FnName, Key: funcKey(fn), HasContract: con != nil}
+	res = &FuncResult{Fn: e.FnName, Key: funcKey(fn), HasContract: con != nil, Refine: ref != nil}
 	defer func() {
 		res.GenTimeS = time.Since(start).Seconds()
 		if r := recover(); r != nil {
@@ -94,7 +105,65 @@ func genFuncK(p *Program, w *World, fn *ssa.Function, con *Contract, excepts map
 		env.Pkg = fn.Pkg.Pkg.Path()
 	}
 	e.top = topFrame{active: true, entryTop: topVar, everything: con == nil}
-	if con != nil {
+	postKind := "post"
+	if ref != nil {
+		// refinement: the interface contract's parameters are the method's, its receiver "self" is
+		// the interface value holding the receiver object; the ghost view is abstracted from it
+		postKind = "refine"
+		self := e.makeIface(args[0], fn.Params[0].Type())
+		g := w.Ghosts[ref.Impl.Ghost]
+		if g == nil {
+			panic(elabError{"impl block: unknown ghost " + ref.Impl.Ghost})
+		}
+		gty, gerr := w.resolveType(g.T, g.Imports, "")
+		if gerr != nil || gty.K != KArr || gty.Elem.K != KArr {
+			panic(elabError{"impl block: ghost " + ref.Impl.Ghost + " must be arr[int]arr[K]V"})
+		}
+		e.ensureSortDecl(gty)
+		e.refine = &refineCtx{impl: ref.Impl, recv: args[0], selfPay: app("if-pay", self.T), ty: gty, cache: map[*State]string{}, entry: st0}
+		env.Imports = w.ImportsOf[con]
+		env.Pkg = con.PkgPath
+		for i, n := range con.Params {
+			if i < len(args) {
+				env.Vars[n] = args[i]
+			}
+		}
+		if len(con.Params) > 0 {
+			env.Vars[con.Params[0]] = self
+		}
+		env.Vars["self"] = self
+		ienv := *env
+		ienv.Imports = ref.Impl.Imports
+		ienv.Pkg = ref.Impl.Pkg
+		for _, r := range ref.Impl.Requires {
+			e.S.assume(e.elabClause(&ienv, r))
+		}
+		for _, r := range ref.Impl.Invariants {
+			e.S.assume(e.elabClause(&ienv, r))
+		}
+		for _, r := range con.Requires {
+			e.S.assume(e.elabClause(env, r))
+		}
+		for _, m := range ref.Impl.Private {
+			ts, all := e.resolveMod(&ienv, m)
+			if all {
+				e.top.everything = true
+			}
+			e.top.targets = append(e.top.targets, ts...)
+		}
+		for _, m := range con.Modifies {
+			if m.Kind == "ghost" || m.Kind == "ghostelem" {
+				continue
+			}
+			ts, all := e.resolveMod(env, m)
+			if all {
+				e.top.everything = true
+			}
+			e.top.targets = append(e.top.targets, ts...)
+		}
+		o := e.oblig(st0, "cover", "requires-sat", "false", "precondition satisfiable", "")
+		o.Cover = true
+	} else if con != nil {
 		env.Imports = w.ImportsOf[con]
 		env.Pkg = con.PkgPath
 		for i, n := range con.Params {
@@ -189,9 +258,26 @@ func genFuncK(p *Program, w *World, fn *ssa.Function, con *Contract, excepts map
 				env2.Vars[k] = v
 			}
 			bindResults(&env2, con, fn.Signature, r.vals)
+			if ref != nil {
+				ienv2 := env2
+				ienv2.Imports = ref.Impl.Imports
+				ienv2.Pkg = ref.Impl.Pkg
+				for _, iv := range ref.Impl.Invariants {
+					t := e.elabClause(&ienv2, iv)
+					e.oblig(r.st, "refine", fmt.Sprintf("repinv.%s@ret%d", iv.ID, ri+1), t, iv.Src, fmt.Sprintf("%s:%d return at %s", shortFile(iv.File), iv.Line, r.pos))
+				}
+			}
 			for _, en := range con.Ensures {
+				if ref != nil && con.Derived[en.ID] != "" {
+					e.Assumptions["derived-clause:"+en.ID+" follows by lemma "+con.Derived[en.ID]] = true
+					continue
+				}
 				t := e.elabClause(&env2, en)
-				po := e.oblig(r.st, "post", fmt.Sprintf("%s@ret%d", en.ID, ri+1), t, en.Src, fmt.Sprintf("%s:%d return at %s", shortFile(en.File), en.Line, r.pos))
+				what := fmt.Sprintf("%s@ret%d", en.ID, ri+1)
+				if ref != nil {
+					what = fmt.Sprintf("%s.%s.%s@ret%d", shortName(ref.Impl.Iface), con.Method, en.ID, ri+1)
+				}
+				po := e.oblig(r.st, postKind, what, t, en.Src, fmt.Sprintf("%s:%d return at %s", shortFile(en.File), en.Line, r.pos))
 				po.RetVals = r.vals
 			}
 		}
